@@ -32,7 +32,7 @@ ASSUMPTIONS = ['output columns are matched to columns of the recorded draw by ex
 
 EPS = A.EPS32
 CONFIGS = ('gaussian-class', 'default', 'kde-instance', 'dict')
-PATTERNS = ('medians', 'alt-5-95', 'far-above', 'far-below')
+PATTERNS = ('medians', 'alt-5-95', 'far-above', 'far-below', 'same-value')
 NSCRIPT = 2039
 
 
@@ -74,6 +74,7 @@ def cases(tier, seed):
     for name in ROUNDTRIP_TABLES:
         for cfg in ('gaussian-class', 'default'):
             out.append((('struct', name), cfg, seed, 'roundtrip'))
+    out.append((('struct', 'near-collinear'), 'gaussian-class', seed, 'near-collinear'))
     out.sort(key=lambda c: (c[1] != 'default', -c[0][0] if isinstance(c[0][0], int) else 0))
     return out
 
@@ -128,6 +129,54 @@ def _roundtrip(r, case):
     return r
 
 
+def _near_collinear(r, case):
+    """Two columns whose normal-score correlation is within 2e-7 of 1 (but not 1: the matrix is invertible and fit adds no
+    ridge), a third column that depends on their difference: conditioning on BOTH uses the exact inverse of S22."""
+    n = 400
+    P = A.lattice(n + 1, 3)[1:]
+    Z = stats.norm.ppf(P)
+    a = Z[:, 0]
+    eta = Z[:, 1]
+    b = a + 3e-4 * eta
+    c = 0.5 * a + 2.0 * eta + 0.3 * Z[:, 2]
+    df = pd.DataFrame({'a': a, 'b': b, 'c': c})
+    gm = tables.fit_gm(df, 'gaussian-class')
+    C = np.asarray(gm.correlation.to_numpy(), float)
+    cols = ['a', 'b', 'c']
+    uni = dict(zip(cols, gm.univariates))
+    r.tr()
+    r.nontriv()
+    r.state(('near-collinear',))
+    for k, (va, vb) in enumerate(((0.5, 0.5003), (-1.0, -0.9996), (0.2, 0.2))):
+        vals = {'a': va, 'b': vb}
+        zref = np.array([stats.norm.ppf(np.clip(float(np.asarray(uni[c_].cdf(np.array([vals[c_]])))[0]), EPS, 1 - EPS)) for c_ in ('a', 'b')])
+        mu_ref, S_ref = schur(C, cols, ['c'], ['a', 'b'], zref)
+        gm.set_random_state(3)
+        with seams.seam() as log:
+            r.tr()
+            try:
+                gm.sample(4, conditions=dict(vals))
+            except Exception as e:
+                r.violation(f'C12:near-collinear:raises:{type(e).__name__}', f'conditioning on two nearly collinear columns raised '
+                            f'{type(e).__name__}: {e}', case=case)
+                continue
+        dr = seams.draws(log)
+        r.ev()
+        if len(dr) == 1 and dr[0][0] == 'multivariate_normal' and len(dr[0][1]) >= 2:
+            mean = np.ravel(np.asarray(dr[0][1][0], float))
+            cov = np.atleast_2d(np.asarray(dr[0][1][1], float))
+            # cond(S22) ~ 1e7: two exact float64 solutions differ by ~1e-8; a truncated pseudo-inverse is off by O(1)
+            if mean.shape == (1,) and (abs(mean[0] - mu_ref[0]) > 1e-4 * max(1, abs(mu_ref[0])) or abs(cov[0, 0] - S_ref[0, 0]) > 1e-4):
+                r.violation('C12:near-collinear:conditional-law', f'conditions {vals} on columns with normal-score correlation '
+                            f'{C[0, 1]!r}: the normal draw for the free column uses mean {mean[0]!r} / variance {cov[0, 0]!r}, the Schur '
+                            f'values are {mu_ref[0]!r} / {S_ref[0, 0]!r}', case=case)
+        else:
+            r.hit('protocol-changed')
+    r.hit('near-collinear')
+    r['sample'] = {'kind': 'near-collinear pair', 'corr': float(C[0, 1]), 'cond': float(np.linalg.cond(C[:2, :2]))}
+    return r
+
+
 def values_for(df, sub, pattern):
     vals = {}
     for k, c in enumerate(sub):
@@ -138,6 +187,8 @@ def values_for(df, sub, pattern):
             v = float(np.median(x))
         elif pattern == 'alt-5-95':
             v = float(np.quantile(x, 0.05 if k % 2 == 0 else 0.95))
+        elif pattern == 'same-value':
+            v = 1.0                       # every conditioned column gets the SAME value (conditions are keyed by column, not value)
         elif pattern == 'far-above':
             v = float(hi + 10 * w)
         else:
@@ -161,6 +212,8 @@ def run_case(case):
     r = engine.new_result()
     if hist == 'roundtrip':
         return _roundtrip(r, case)
+    if hist == 'near-collinear':
+        return _near_collinear(r, case)
     df, info = tables.gaussian_copula_table(t, A.shift_from_seed(seed))
     cols = list(df.columns)
     d = len(cols)
@@ -179,6 +232,17 @@ def run_case(case):
         r.hit('refit-history')
     else:
         gm = tables.fit_gm(df, cfg)
+        # ANOTHER model object with the same column names but another dependence (both fitted) conditions on every subset first: nothing it
+        # computed may leak into this model (no state shared between instances)
+        if d <= 4:
+            other = (t[0], 'equi+' if t[1] != 'equi+' else 'ar1', 'normal', (), 30, t[5])
+            dfd, _ = tables.gaussian_copula_table(other)
+            dfd.columns = cols
+            decoy = tables.fit_gm(dfd, 'gaussian-class')
+            for k in range(1, d):
+                for sub in itertools.combinations(cols, k):
+                    decoy.sample(1, conditions={c: float(dfd[c].iloc[1]) for c in sub})
+            r.hit('decoy-model')
     C = np.asarray(gm.correlation.to_numpy(), float)
     uni = dict(zip(cols, gm.univariates))
     subsets = [s for k in range(1, d) for s in itertools.combinations(cols, k)]
@@ -241,7 +305,10 @@ def run_case(case):
                         mean = np.asarray(args[0], float)
                         cov = np.asarray(args[1], float)
                         Z = np.asarray(Z, float).reshape(rows, -1)
-                        ok_draw = mean.shape == (m,) and cov.shape == (m, m) and Z.shape == (rows, m) and kw.get('size') == rows
+                        # (a draw with MORE columns than there are free columns is still decided exactly: the free columns must
+                        # be element-wise transforms of m of its columns, and the marginal law of those columns is the Schur law)
+                        mm = mean.shape[0] if mean.ndim == 1 else -1
+                        ok_draw = mm >= m and cov.shape == (mm, mm) and Z.shape == (rows, mm) and kw.get('size') == rows
                     if not ok_draw:
                         # the conditional normal scores are drawn in another (possibly equally valid) way: the exact comparison
                         # of the request no longer applies; the conditional law is decided on a large seeded sample below
@@ -255,7 +322,7 @@ def run_case(case):
                     cand = []
                     for c in free:
                         oc = O[:, cols.index(c)]
-                        cand.append([i for i in range(m)
+                        cand.append([i for i in range(Z.shape[1])
                                      if np.array_equal(oc, np.asarray(uni[c].percent_point(stats.norm.cdf(Z[:, i])), float),
                                                        equal_nan=True)])
                     if any(not x for x in cand):
